@@ -44,7 +44,7 @@ LITS = ["0", "1", "2", "3", "7", "8", "63", "64", "-1", "-2", "-7", "92233720368
 
 def bounds(tier):
     q = tier == "quick"
-    return {"E1_literals": len(LITS), "random": 4000 if q else 150000, "random_depth": 6,
+    return {"E1_literals": len(LITS), "random": 20000 if q else 400000, "random_depth": 6,
             "depth3_small": not q, "file_path_sample": 0.05, "batch": 800}
 
 
